@@ -259,3 +259,45 @@ func shallowWF(v Value) bool {
     requires self.Start != nil && self.End != nil && *self.Start != nil && *self.End != nil && (*self.Start).Kind() == IntValueKind && (*self.End).Kind() == IntValueKind
     ensures @copy fresh(result) && (*result).(ValueRange).EndIsInclusive == self.EndIsInclusive
 @*/
+
+// ---------------------------------------------------------------------------
+// C02 / C01: indexing
+
+// indexable: the operand kinds the analyzer admits for `base[index]`.
+func indexable(b Value, i Value) bool {
+	switch b.Kind() {
+	case ObjectValueKind, AnyObjectValueKind:
+		_, ok := i.(ValueString)
+		return ok
+	case ListValueKind:
+		l, ok := b.(ValueList)
+		_, ok2 := i.(ValueInt)
+		return ok && ok2 && l.Values != nil
+	case StringValueKind:
+		_, ok := b.(ValueString)
+		_, ok2 := i.(ValueInt)
+		return ok && ok2
+	}
+	return false
+}
+
+// wrapIndex: negative indices count from the end.
+func wrapIndex(i int64, n int) int64 {
+	if i < 0 {
+		return i + int64(n)
+	}
+	return i
+}
+
+func inBounds(i int64, n int) bool { return 0 <= wrapIndex(i, n) && wrapIndex(i, n) < int64(n) }
+
+/*@ func IndexValue
+    serves C02, C01
+    requires base != nil && *base != nil && index != nil && *index != nil && span != nil
+    requires indexable(*base, *index)
+    ensures @list-element ret1 == nil && old((*base).Kind()) == ListValueKind ==> old(inBounds((*index).(ValueInt).Inner, len(*(*base).(ValueList).Values))) && ret0 == old((*(*base).(ValueList).Values)[wrapIndex((*index).(ValueInt).Inner, len(*(*base).(ValueList).Values))])
+    ensures @list-bounds old((*base).Kind()) == ListValueKind && !old(inBounds((*index).(ValueInt).Inner, len(*(*base).(ValueList).Values))) ==> ret1 != nil
+    ensures @string-bounds old((*base).Kind()) == StringValueKind && !old(inBounds((*index).(ValueInt).Inner, len((*base).(ValueString).Inner))) ==> ret1 != nil
+    ensures @string-element ret1 == nil && old((*base).Kind()) == StringValueKind ==> old(inBounds((*index).(ValueInt).Inner, len((*base).(ValueString).Inner)))
+    ensures @result ret1 == nil ==> ret0 != nil
+@*/
